@@ -29,19 +29,26 @@ def build_trigger(tr, rec, tag):
 
     kw = {"tag": tag, "k": 7}
     k = tr["k"]
+
+    def order(xs, key=None):
+        """the spec's parameters are SETS (of times, ranges, periods); the API takes lists - the order in which a set is listed
+        must not matter, so it is varied deterministically: ascending, descending, rotated"""
+        xs = sorted(xs, key=key)
+        v = (len(xs) + sum((key(x) if key else x) for x in xs)) % 3
+        return xs if v == 0 else xs[::-1] if v == 1 else xs[1:] + xs[:1]
     if k == "at":
         return AtTimeTrigger(minute(tr["t"]), do, **kw)
     if k == "ats":
-        return AtTimesTrigger([minute(t) for t in sorted(tr["ts"])], do, **kw)
+        return AtTimesTrigger([minute(t) for t in order(tr["ts"])], do, **kw)
     if k == "range":
         return TimeRangeTrigger(TimeRange(minute(tr["a"]), minute(tr["b"])), do, **kw)
     if k == "ranges":
-        return TimeRangesTrigger([TimeRange(minute(r["a"]), minute(r["b"])) for r in tr["rs"]], do, **kw)
+        return TimeRangesTrigger([TimeRange(minute(r["a"]), minute(r["b"])) for r in order(tr["rs"], key=lambda r: r["a"] * 1000 + r["b"])], do, **kw)
     if k == "period":
         return PeriodTrigger(timedelta(minutes=tr["d"]), do, trigger_immediately=tr["imm"],
                              pending=timedelta(minutes=tr["p"]), **kw)
     if k == "periods":
-        return PeriodsTrigger([timedelta(minutes=d) for d in tr["ds"]], do, trigger_immediately=tr["imm"],
+        return PeriodsTrigger([timedelta(minutes=d) for d in order(tr["ds"])], do, trigger_immediately=tr["imm"],
                               pending=timedelta(minutes=tr["p"]), **kw)
     raise ValueError(k)
 
